@@ -8,4 +8,4 @@ CONSTANTS
   SampleMod = 1
   SamplePick = 0
   ValidOnly = FALSE
-  MaxInc = 0
+  MaxInc = 2
